@@ -22,6 +22,7 @@ STACK_BASE = 0x7f0000000000
 CASES_LIMIT = 64          # a case-split value with more alternatives becomes an ordinary term
 OBJ_EXPAND_LIMIT = 4096   # symbolic access into an object up to this size is expanded to an ITE
 _EMPTY = frozenset()
+MEMORY_FAILURE = 998      # failure id of an out-of-bounds access (memory_failures=True)
 _DISTRIBUTE = ('mul', 'shl', 'lshr', 'ashr', 'udiv', 'sdiv', 'urem', 'srem')
 
 
@@ -131,7 +132,7 @@ def _signed(x, w):
 class Executor(object):
     def __init__(self, module, fixed=None, max_visits=64, max_steps=2000000, timeout=None,
                  query_timeout_ms=60000, seed=0, stop_on_failure=True, fork_on_select=False,
-                 max_failures=8):
+                 max_failures=8, memory_failures=False):
         self.m = module
         self.fixed = dict(fixed or {})
         self.max_visits, self.max_steps = max_visits, max_steps
@@ -139,6 +140,7 @@ class Executor(object):
         self.stop_on_failure = stop_on_failure
         self.fork_on_select = fork_on_select
         self.max_failures = max_failures
+        self.memory_failures = memory_failures   # invalid access = counterexample 998, not ExecError
         self.seed = seed
         self.pc = []               # path condition: [(constraint, frozenset of variable ids)]
         self.scopes = []           # len(self.pc) at each fork on the current path
@@ -385,6 +387,9 @@ class Executor(object):
                 return self.cjoin(b, lambda x: self.binop(op, a, x, w), w)
             if ka and not cb and not kb and len(a.items) <= 16:
                 return self.cjoin(a, lambda x: self.binop(op, x, b, w), w)
+        return self._binop_terms(op, a, b, w)
+
+    def _binop_terms(self, op, a, b, w):
         a, b = self.bv(a, w), self.bv(b, w)
         if op == 'add':
             return a + b
@@ -647,6 +652,15 @@ class Executor(object):
         return None
 
     # ------------------------------------------------------------------ memory
+    def bad_access(self, st, text, cond=None):
+        """An access outside every object (when `cond` holds, None = always on this path)."""
+        if not self.memory_failures:
+            raise ExecError(text)
+        self.failure(st, st.frames[-1], MEMORY_FAILURE, 'memory', cond)
+        if self.res.failures and self.res.failures[-1].kind == 'memory':
+            self.res.failures[-1].where = text + ' in ' + self.res.failures[-1].where
+        raise _PathEnd('failed')
+
     def _object_at(self, st, a, n):
         """(base, size, writable) of the object holding [a, a+n), or None."""
         if a >= STACK_BASE:
@@ -685,7 +699,7 @@ class Executor(object):
         if not isinstance(addr, int):
             return self._load_sym(st, addr, n)
         if self._object_at(st, addr, n) is None:
-            raise ExecError('load of %d bytes outside any object at 0x%x' % (n, addr))
+            self.bad_access(st, 'load of %d bytes outside any object at 0x%x' % (n, addr))
         e = st.mem.get(addr)
         if e is not None and e[2] >= n:      # all n bytes are consecutive bytes of one stored value?
             v, j = e[0], e[1]
@@ -714,7 +728,7 @@ class Executor(object):
             return self._store_sym(st, addr, n, v)
         o = self._object_at(st, addr, n)
         if o is None or not o[2]:
-            raise ExecError('store of %d bytes %s at 0x%x' % (
+            self.bad_access(st, 'store of %d bytes %s at 0x%x' % (
                 n, 'outside any object' if o is None else 'into a constant', addr))
         mem = st.mem
         for i in range(n):
@@ -723,9 +737,12 @@ class Executor(object):
     def _load_sym(self, st, addr, n):
         if isinstance(addr, Cases):
             live = self._live_targets(st, addr, n, False)
-            if len(live.items) == 1:
-                return self.load(st, live.items[0][1], n)
+            if isinstance(live, int):
+                return self.load(st, live, n)
             return self.cjoin(live, lambda a: self.load(st, a, n), n * 8)
+        only = self.unique(addr)
+        if only is not None:
+            return self.load(st, only, n)
         objs = self._resolve(st, addr, n)
         if objs is None:
             return self._load_flat(st, addr, n)
@@ -738,22 +755,33 @@ class Executor(object):
                 val = x if val is None else self.ite(addr == z3.BitVecVal(a, 64), x, val, n * 8)
         return val
 
+    def unique(self, term):
+        """The value of a symbolic term if the path condition leaves it only one, else None."""
+        r, mdl = self.check(term == term, want_model=True)
+        if r != z3.sat:
+            return None
+        v = mdl.eval(term, model_completion=True)
+        if self.check(term != v) != z3.unsat:
+            return None
+        return v.as_long()
+
     def _live_targets(self, st, addr, n, writing):
-        """A case-split pointer without the alternatives that point outside every object and
-        are infeasible under the path condition (e.g. the NULL of an `if (p == NULL) return`
-        already passed); a feasible invalid alternative is an error."""
+        """The feasible targets of a case-split pointer (e.g. without the NULL of an
+        `if (p == NULL) return` already passed); a feasible target outside every object is an
+        error.  -> int or Cases"""
         keep = []
-        for g, a in addr.items:
+        for g, a in addr.items:          # solver calls only for the alternatives that are invalid
             o = self._object_at(st, a, n)
             if o is None or (writing and not o[2]):
                 if self.check(g) != z3.unsat:
-                    raise ExecError('%s of %d bytes through a pointer that may be 0x%x (outside any %sobject)'
-                                    % ('store' if writing else 'load', n, a, 'writable ' if writing else ''))
+                    self.bad_access(st, '%s of %d bytes through a pointer that may be 0x%x (outside any %sobject)'
+                                    % ('store' if writing else 'load', n, a, 'writable ' if writing else ''), g)
             else:
                 keep.append((g, a))
         if not keep:
             raise ExecError('access through a pointer with no valid target')
-        return Cases(keep, 64)
+        addr = keep[0][1] if len(keep) == 1 else Cases(keep, 64)
+        return addr
 
     def _resolve(self, st, addr, n):
         """Objects a symbolic address can point into under the path condition: [(base, size)].
@@ -768,8 +796,8 @@ class Executor(object):
             a = mdl.eval(addr, model_completion=True).as_long()
             o = self._object_at(st, a, n)
             if o is None:
-                raise ExecError('access of %d bytes through a symbolic pointer may fall outside '
-                                'every object (e.g. 0x%x)' % (n, a))
+                self.bad_access(st, 'access of %d bytes through a symbolic pointer may fall outside '
+                                'every object (e.g. 0x%x)' % (n, a), addr == z3.BitVecVal(a, 64))
             if o[1] > OBJ_EXPAND_LIMIT or len(objs) >= 8:
                 return None
             objs.append((o[0], o[1]))
@@ -800,8 +828,8 @@ class Executor(object):
                 conds.append(z3.And(z3.ULE(z3.BitVecVal(base, 64), addr),
                                     z3.ULE(addr, z3.BitVecVal(base + size - n, 64))))
         if self.check(z3.Not(z3.Or(*conds))) != z3.unsat:
-            raise ExecError('access of %d bytes through a symbolic pointer may fall outside every '
-                            '%sobject' % (n, 'writable ' if writable else ''))
+            self.bad_access(st, 'access of %d bytes through a symbolic pointer may fall outside every '
+                            '%sobject' % (n, 'writable ' if writable else ''), z3.Not(z3.Or(*conds)))
 
     def _load_flat(self, st, addr, n):
         self._in_some_object(st, addr, n, False)
@@ -811,12 +839,15 @@ class Executor(object):
 
     def _store_sym(self, st, addr, n, v):
         if isinstance(addr, Cases):
-            live = self._live_targets(st, addr, n, True).items
-            if len(live) == 1:
-                return self.store(st, live[0][1], n, v)
-            for g, a in live:
+            live = self._live_targets(st, addr, n, True)
+            if isinstance(live, int):
+                return self.store(st, live, n, v)
+            for g, a in live.items:
                 self.store(st, a, n, self.ite(g, v, self.load(st, a, n), n * 8))
             return
+        only = self.unique(addr)
+        if only is not None:
+            return self.store(st, only, n, v)
         self._in_some_object(st, addr, n, True)
         arr = self._flatten(st)
         v = self.bv(v, n * 8)
